@@ -394,6 +394,8 @@ pub fn run(prop: &'static str, tier: Tier) -> i32 {
     let mut ev = Evidence::new(prop, tier);
     explore_plans(prop, tier, &reporter, &mut ev, 1.0);
     ev.violations = reporter.new_violations();
+    let notes: Vec<String> = reporter.notes().iter().map(|(c, n)| format!("{c}: {n}")).collect();
+    ev.set("branches_ended_by_oracles_of_other_statements", serde_json::json!(notes));
     let code = reporter.finish();
     ev.write();
     code
